@@ -6,6 +6,7 @@
   `n ≥ 1`.  `IsNth votes n t` is the order-free definition of "the n-th highest total".
 -/
 import VotelibProofs.Lemmas.NBest
+import VotelibProofs.Lemmas.SortAsc
 import VotelibModel.Simple
 namespace VL.C09
 open VL
@@ -240,6 +241,98 @@ theorem getNBest_strictMono_map (f : Rat → Rat) (hf : StrictMono f) (votes : V
         Function.comp_def, hinj, ne_eq]
     · simp only [← List.map_take, List.map_map, Function.comp_def]
   · simp only [List.map_map, Function.comp_def]
+
+/-- an individually elected candidate stands in the votes with a total of at least the n-th total; and exactly the n-th
+    total only when the level set fits -/
+private theorem elected_form (votes : Votes) (n : Nat) (h1 : 1 ≤ n) (hlen : n < votes.length)
+    (t : Rat) (ht : IsNth votes n t) (c : Cand) (hc : Slot.cand c ∈ getNBest votes n) :
+    ∃ p ∈ votes, p.1 = c ∧ (t < p.2 ∨ (p.2 = t ∧ cntGe votes t ≤ n)) := by
+  rcases Nat.lt_or_ge n (cntGe votes t) with hno | hfit
+  · rw [getNBest_tie votes n h1 hlen t ht hno] at hc
+    rcases List.mem_append.mp hc with h | h
+    · obtain ⟨q, hq, hqe⟩ := List.mem_map.mp h
+      have hq' := mem_aboveSorted.mp hq
+      exact ⟨q, hq'.1, by injection hqe, Or.inl hq'.2⟩
+    · have := (List.mem_replicate.mp h).2; cases this
+  · rw [getNBest_fits votes n h1 hlen t ht hfit] at hc
+    rcases List.mem_append.mp hc with h | h
+    · obtain ⟨q, hq, hqe⟩ := List.mem_map.mp h
+      have hq' := mem_aboveSorted.mp hq
+      exact ⟨q, hq'.1, by injection hqe, Or.inl hq'.2⟩
+    · simp only [level, List.map_map, List.mem_map, List.mem_filter, decide_eq_true_eq, Function.comp] at h
+      obtain ⟨q, ⟨hq, hqt⟩, hqk⟩ := h
+      exact ⟨q, hq, by injection hqk, Or.inr ⟨hqt, hfit⟩⟩
+
+private theorem cntGe_le_cntGt_of_lt (votes : Votes) {t t' : Rat} (h : t < t') : cntGe votes t' ≤ cntGt votes t := by
+  unfold cntGe cntGt
+  induction votes with
+  | nil => simp
+  | cons x xs ih =>
+    simp only [List.filter_cons]
+    by_cases h1 : t' ≤ x.2
+    · have h2 : t < x.2 := lt_of_lt_of_le h h1
+      simp only [h1, h2, decide_true, if_true, List.length_cons]; omega
+    · by_cases h2 : t < x.2
+      · simp only [h1, h2, decide_true, decide_false, if_true, List.length_cons]; simp; omega
+      · simp only [h1, h2, decide_false]; simpa using ih
+
+/-- **Filling one more seat never unseats anybody**: a candidate elected individually for `n` seats is elected individually
+    for `n + 1` seats (ties can only dissolve into elected candidates, never the other way round). -/
+theorem elected_stays_elected (votes : Votes) (n : Nat) (h1 : 1 ≤ n) (c : Cand)
+    (hc : Slot.cand c ∈ getNBest votes n) : Slot.cand c ∈ getNBest votes (n + 1) := by
+  rcases Nat.lt_or_ge n votes.length with hlt | hge
+  · obtain ⟨t, ht⟩ := nth_exists votes n h1 (le_of_lt hlt)
+    obtain ⟨p, hp, hpc, hcase⟩ := elected_form votes n h1 hlt t ht c hc
+    rcases Nat.lt_or_ge (n + 1) votes.length with hlt' | hge'
+    · obtain ⟨t', ht'⟩ := nth_exists votes (n + 1) (by omega) (le_of_lt hlt')
+      have htt : t' ≤ t := by
+        by_contra hcon
+        have hlt2 : t < t' := not_le.mp hcon
+        have := cntGe_le_cntGt_of_lt votes hlt2
+        have h3 := ht.2.1
+        have h4 := ht'.2.2
+        omega
+      have hgt : t' < p.2 := by
+        rcases hcase with hgt | ⟨heq, hfit⟩
+        · exact lt_of_le_of_lt htt hgt
+        · rcases lt_or_eq_of_le htt with hlt3 | heq3
+          · rw [heq]; exact hlt3
+          · exfalso
+            have h4 := ht'.2.2
+            rw [heq3] at h4
+            omega
+      have := strictly_above_elected votes (n + 1) (by omega) (le_of_lt hlt') t' ht' p hp hgt
+      rwa [hpc] at this
+    · rw [getNBest_all votes (n + 1) hge']
+      exact List.mem_map.mpr ⟨p, mem_sortDesc.mpr hp, by rw [hpc]⟩
+  · rw [getNBest_all votes n hge] at hc
+    rw [getNBest_all votes (n + 1) (by omega)]
+    exact hc
+
+example : Slot.cand 1 ∈ getNBest [(1,5),(2,3),(3,3),(4,1)] 2 ∧ getNBest [(1,5),(2,3),(3,3),(4,1)] 3 = [Slot.cand 1, Slot.cand 2, Slot.cand 3] := by
+  decide +kernel
+
+/-- **`util.sorted_votes`, descending** (what every evaluator ranks by): the result is a rearrangement of the dictionary's items,
+    non-increasing in the exact value, and STABLE - items with one and the same value keep their insertion order. -/
+theorem sorted_votes_desc_spec (votes : Votes) :
+    (sortDesc votes).Perm votes ∧ Desc (sortDesc votes) ∧
+    ∀ t : Rat, (sortDesc votes).filter (fun p => p.2 = t) = votes.filter (fun p => p.2 = t) :=
+  ⟨sortDesc_perm votes, sortDesc_desc votes, sortDesc_filter_eq votes⟩
+
+/-- **`util.sorted_votes(descending=False)`**: rearrangement, non-decreasing, stable. -/
+theorem sorted_votes_asc_spec (votes : Votes) :
+    (sortAsc votes).Perm votes ∧ Asc (sortAsc votes) ∧
+    ∀ t : Rat, (sortAsc votes).filter (fun p => p.2 = t) = votes.filter (fun p => p.2 = t) :=
+  ⟨sortAsc_perm votes, sortAsc_asc votes, sortAsc_filter_eq votes⟩
+
+/-- The two orders list the same items and agree inside every level set (both keep insertion order there) - so the ascending
+    order is NOT the reverse of the descending one when values repeat. -/
+theorem sorted_votes_level_sets_agree (votes : Votes) (t : Rat) :
+    (sortAsc votes).filter (fun p => p.2 = t) = (sortDesc votes).filter (fun p => p.2 = t) := by
+  rw [sortAsc_filter_eq, sortDesc_filter_eq]
+
+example : sortAsc [(1,2),(2,1),(3,2)] = [(2,1),(1,2),(3,2)] ∧ sortDesc [(1,2),(2,1),(3,2)] = [(1,2),(3,2),(2,1)] := by
+  decide +kernel
 
 /-- Plurality is `get_n_best` -/
 theorem plurality_eq (votes : Votes) (n : Nat) : plurality votes n = getNBest votes n := rfl
